@@ -172,6 +172,17 @@ Definition ops_codec (op : string) (args0 : list string) : option string :=
           match p_all p_header ts with Some a => Some ("OK " ++ show_hex (spec_header a)) | None => None end
         else None
     | _ => None end
+  else if String.eqb op "encshort" then
+    (* encode into a writer that takes only n bytes: Ok with the bytes iff they fit, otherwise the writer's error; no state *)
+    match args with
+    | T :: n :: ts =>
+        match parse_N n, lookup_ty T with
+        | Some n, Some (AnyTy d e sh p rl) =>
+            match p_all p ts with
+            | Some a => Some (if N.leb (lenN (e a)) n then "OK " ++ show_hex (e a) else "ERR")
+            | None => None end
+        | _, _ => None end
+    | _ => None end
   else if String.eqb op "rt" then
     (* serialise, parse back (partial), compare, strict parse, strict parse with one trailing byte *)
     match args with
